@@ -577,18 +577,17 @@ func (engine *Engine) getQuality(id thor.Bytes32) (quality uint32, err error) {
 		return cached.(uint32), nil
 	}
 
-	defer func() {
-		if err == nil {
-			engine.caches.quality.Add(id, quality)
-		}
-	}()
-
 	quality, err = loadQuality(engine.data, id)
-	// no quality saved yet
-	if engine.data.IsNotFound(err) {
-		return 0, nil
+	if err != nil {
+		// no quality saved yet: do not cache the absence. Justified() runs on API goroutines and may look at a
+		// store point that CommitBlock is about to persist; a cached 0 would overwrite the value CommitBlock caches.
+		if engine.data.IsNotFound(err) {
+			return 0, nil
+		}
+		return 0, err
 	}
-	return
+	engine.caches.quality.Add(id, quality)
+	return quality, nil
 }
 
 func getCheckPoint(blockNum uint32) uint32 {
